@@ -5,6 +5,7 @@ import NeumannModel.TwoPC.Restart
 import NeumannModel.TwoPC.Wal
 import NeumannModel.TwoPC.VoteSplit
 import NeumannModel.TwoPC.Settle
+import NeumannModel.TwoPC.Ack
 /-
   Line-protocol driver for the 2PC model (C03).  State = one `Sys`.
     init <nshards> <txTimeout> <maxConcurrent> <lockTimeout>
@@ -35,6 +36,14 @@ import NeumannModel.TwoPC.Settle
     settle                                                 (Settle.lean: every pool ABORT of a transaction whose only decision is abort is
                                                             delivered — ordinary `deliver` events, pool order; answer `settled <n> stuck
                                                             <tx.sh,..|->`: the participants still prepared for / holding a lock of such a tx)
+    ack <tx> <sh>                                          (Ack.lean: a TxAck(tx, sh) reaches the coordinator, `handle_abort_ack`; answer `acked <0|1>`;
+                                                            `!outside` when no ABORT(tx) was delivered to shard <sh> before: only a shard that
+                                                            handled the abort acknowledges it.  Every abort broadcast the glue drains is tracked
+                                                            (`track_abort`), every delivered ABORT is recorded (`told`))
+    aretry <ms>                                            (the ack layer's clock advances by <ms>; `get_retry_aborts`; the ABORT is re-sent = joins the
+                                                            pool again for every unacknowledged shard; answer `retry <tx:sh.sh,..|-> | <messages>`)
+    asettle                                                (`aretry 31000`, every RE-SENT abort delivered and acknowledged — nothing else is delivered:
+                                                            an ABORT that was in the pool before stays lost; answer `asettled <n> stuck <tx.sh,..|->`)
     dump | dumpw                                           (dumpw: the dump followed by `|W:` and the log the coordinator has written)
   The driver keeps the log of a WAL-backed coordinator (`SysW.wal`) along every script; it is only read by `wrestart` / `dumpw`.
   An event is tagged `!outside` when it leaves the property's alphabet: participant cleanups, lock expiry, forged
@@ -62,12 +71,12 @@ def parsePhase : String → Option Phase
 def sortOn {α : Type} (f : α → Nat) (xs : List α) : List α :=
   xs.mergeSort (fun a b => decide (f a ≤ f b))
 
-def dedupNat (xs : List Nat) : List Nat :=
+def dedupKeys (xs : List Nat) : List Nat :=
   xs.foldl (fun acc x => if acc.contains x then acc else acc ++ [x]) []
 
 /-- the keys of a YES vote's delta are a set in the code: shown sorted, without duplicates -/
 def showVote : Vote → String
-  | .yes h ks => s!"y{h}:{dotted (sortOn id (dedupNat ks))}"
+  | .yes h ks => s!"y{h}:{dotted (sortOn id (dedupKeys ks))}"
   | .no => "n"
   | .conflict t => s!"c{t}"
 
@@ -159,7 +168,7 @@ def parseVote (s : String) : Option Vote :=
   | _ => none
 
 def showStore (s : Store) : String :=
-  let keys := sortOn id (dedupNat (s.map (·.1)))
+  let keys := sortOn id (dedupKeys (s.map (·.1)))
   ",".intercalate (keys.filterMap (fun k => (sget s k).map (fun v => s!"{k}={showVal v}")))
 
 def showUndo : Undo → String
@@ -414,4 +423,81 @@ def twopcStepW (w : SysW) (line : String) : SysW × String :=
     let r := twopcStepK w.k line
     if r.2 = "bad-op" then (w, r.2) else (⟨r.1, w.wal ++ walOfLine w.k.sys line⟩, r.2)
 
-def main : IO Unit := run twopcStepW (SysW.init [] 0 0 0)
+/-- the state with the abort-acknowledgement layer (`AckNet`, Ack.lean) around `twopcStepW` -/
+structure SysA where
+  w : SysW
+  ack : AckNet
+
+def abortOf : Msg → Option (Nat × Nat)
+  | .abort tx sh => some (tx, sh)
+  | _ => none
+
+/-- the ABORT deliveries behind a protocol line (shards that exist) -/
+def toldOfLine (s : Sys) (line : String) : List (Nat × Nat) :=
+  let idx := match words line with
+    | ["deliver", i] => match i.toNat? with | some i => [i] | none => []
+    | ["settle"] => s.settleIdx
+    | _ => []
+  idx.filterMap (fun i => match s.msgs[i]? with
+    | some m => match abortOf m with
+      | some (tx, sh) => if sh < s.parts.length then some (tx, sh) else none
+      | none => none
+    | none => none)
+
+/-- the abort broadcasts the glue drained during the step from `s` to `s'`: (tx, recipients) -/
+def broadcastsOf (s s' : Sys) : List (Nat × List Nat) :=
+  let fresh := (s'.msgs.drop s.msgs.length).filterMap abortOf
+  (s'.reasons.drop s.reasons.length).map (fun r => (r.1, (fresh.filter (fun e => e.1 == r.1)).map (·.2)))
+
+def showRetry (r : List (Nat × List Nat)) : String :=
+  let xs := (sortOn (·.1) r).map (fun e => s!"{e.1}:{dotted (sortOn id e.2)}")
+  if xs.isEmpty then "-" else ",".intercalate xs
+
+/-- `aretry`: the clock advances, `get_retry_aborts`, the re-sent ABORT messages join the pool (sorted) -/
+def aretry (a : SysA) (d : Nat) : SysA × List (Nat × List Nat) :=
+  let ack := (a.ack.step (.advance d))
+  let r := getRetryAborts ack.states ack.now
+  let sorted := (sortOn (·.1) r.2).map (fun e => (e.1, sortOn id e.2))
+  let s := a.w.k.sys
+  let s' := { s with msgs := s.msgs ++ (resendPairs sorted).map (fun p => Msg.abort p.1 p.2) }
+  ({ w := { a.w with k := { a.w.k with sys := s' } }, ack := ack.step .retry }, sorted)
+
+def twopcStepA (a : SysA) (line : String) : SysA × String :=
+  match words line with
+  | "init" :: _ =>
+    let r := twopcStepW a.w line
+    (⟨r.1, AckNet.init⟩, r.2)
+  | ["ack", t, sh] =>
+    match t.toNat?, sh.toNat? with
+    | some t, some sh =>
+      let r := handleAbortAck a.ack.states t sh
+      let tag := if a.ack.inAlphabet (.ack t sh) then "" else " !outside"
+      ({ a with ack := a.ack.step (.ack t sh) }, s!"acked {if r.2 then 1 else 0}{tag} |")
+    | _, _ => (a, "bad-op")
+  | ["aretry", d] =>
+    match d.toNat? with
+    | some d =>
+      let r := aretry a d
+      (r.1, s!"retry {showRetry r.2} | {" ".intercalate ((r.1.w.k.sys.msgs.drop a.w.k.sys.msgs.length).map showMsg)}")
+    | none => (a, "bad-op")
+  | ["asettle"] =>
+    let r := aretry a 31000
+    let from_ := a.w.k.sys.msgs.length
+    let pairs := resendPairs r.2
+    -- every re-sent ABORT is delivered (ordinary `deliver` events), then acknowledged
+    let idx := (List.range pairs.length).map (· + from_)
+    let w' := idx.foldl (fun w i => (twopcStepW w s!"deliver {i}").1) r.1.w
+    let ack' := pairs.foldl (fun b p =>
+      if p.2 < w'.k.sys.parts.length then (b.step (.told p.1 p.2)).step (.ack p.1 p.2) else b) r.1.ack
+    let st := w'.k.sys.stuck.map (fun e => s!"{e.1}.{e.2}")
+    (⟨w', ack'⟩, s!"asettled {pairs.length} stuck {if st.isEmpty then "-" else ",".intercalate st} |")
+  | _ =>
+    let s := a.w.k.sys
+    let r := twopcStepW a.w line
+    if r.2 = "bad-op" then (a, r.2) else
+    let s' := r.1.k.sys
+    let ack1 := (toldOfLine s line).foldl (fun b p => b.step (.told p.1 p.2)) a.ack
+    let ack2 := (broadcastsOf s s').foldl (fun b e => b.step (.track e.1 e.2)) ack1
+    (⟨r.1, ack2⟩, r.2)
+
+def main : IO Unit := run twopcStepA ⟨SysW.init [] 0 0 0, AckNet.init⟩
